@@ -62,12 +62,15 @@ func runGenEngines(c *Check, o genOpts) map[*ssa.Function]bool {
 	nLost := lostUpdates(c, "LOST-UPDATE", in)
 	c.Counts["copied_element_updates"] = nLost
 	c.Okf("LOST-UPDATE", "scan", "-", "%d reachable repository functions scanned for field writes on copies of container elements: %d found and evaluated", len(in), nLost)
+	c.Counts["memo_entries_filed"] = memoOnFailure(c, "MEMO-ON-FAILURE", in)
 	nMemo := memoKeys(c, "MEMO-KEY", in)
 	c.Counts["memo_tables"] = nMemo
 	c.Okf("MEMO-KEY", "scan", "-", "%d reachable repository functions scanned for look-up-or-compute tables: %d found and evaluated", len(in), nMemo)
-	nCnt := counterPairs(c, "COUNTER-PAIR", in)
+	nCnt := counterPairs(c, "COUNTER-PAIR", in) + saturatingCounters(c, "COUNTER-PAIR", in)
 	c.Counts["counter_entry_deletes"] = nCnt
 	c.Okf("COUNTER-PAIR", "scan", "-", "%d reachable repository functions scanned for deletes from per-key nesting counters: %d found and evaluated", len(in), nCnt)
+	c.Counts["block_walkers"] = blockKindsAgree(c, "BLOCK-KINDS", in)
+	c.Counts["goroutines_started_in_loops"] = goroutineLoopVars(c, "GOROUTINE-LOOPVAR", in)
 	nDead := deadErrors(c, "DEAD-ERROR", in)
 	c.Counts["dead_error_assignments"] = nDead
 	c.Okf("DEAD-ERROR", "scan", "-", "%d reachable repository functions scanned for error results bound to a variable that is never read: %d found", len(in), nDead)
@@ -241,6 +244,9 @@ func lockPairs(c *Check, rule string, fns map[*ssa.Function]bool) int {
 // parameter in one function and a captured variable in a closure.
 func resKey(v ssa.Value) string {
 	v = unspill(v)
+	if g, ok := loadsGlobal(v); ok && g.Pkg != nil {
+		return shortPkg(g.Pkg.Pkg.Path()) + "." + g.Name()
+	}
 	if own, fld, _, ok := loadedField(v); ok && own != nil {
 		return own.Obj().Name() + "." + fld
 	}
@@ -261,7 +267,11 @@ func acquisitionsIn(f *ssa.Function) []acquisition {
 	eachInstr(f, func(_ *ssa.BasicBlock, i ssa.Instruction) {
 		switch x := i.(type) {
 		case *ssa.Send:
+			// a semaphore: a channel kept in a struct field or in a package variable
+			// (a channel created locally is a rendezvous, decided elsewhere)
 			if _, _, _, isField := loadedField(unspill(x.Chan)); isField {
+				out = append(out, acquisition{i, resKey(x.Chan), "token"})
+			} else if g, isGlobal := loadsGlobal(unspill(x.Chan)); isGlobal && g.Pkg != nil && isRepoPkg(g.Pkg.Pkg) {
 				out = append(out, acquisition{i, resKey(x.Chan), "token"})
 			}
 		case *ssa.Call:
@@ -301,14 +311,18 @@ func deferredRelease(f *ssa.Function, a acquisition) bool {
 				found = true
 			}
 		}
+		var body *ssa.Function
 		if mc, ok := d.Call.Value.(*ssa.MakeClosure); ok {
-			if fn, ok := mc.Fn.(*ssa.Function); ok {
-				eachInstr(fn, func(_ *ssa.BasicBlock, j ssa.Instruction) {
-					if isRelease(j, a) {
-						found = true
-					}
-				})
-			}
+			body, _ = mc.Fn.(*ssa.Function)
+		} else if fn, ok := d.Call.Value.(*ssa.Function); ok && fn.Parent() != nil {
+			body = fn // a function literal that captures nothing
+		}
+		if body != nil {
+			eachInstr(body, func(_ *ssa.BasicBlock, j ssa.Instruction) {
+				if isRelease(j, a) {
+					found = true
+				}
+			})
 		}
 	})
 	return found
@@ -586,6 +600,9 @@ func memoKeys(c *Check, rule string, in map[*ssa.Function]bool) int {
 			for _, mu := range updates {
 				if exprKey(mu.Map, 0) != exprKey(lk.X, 0) || exprKey(mu.Key, 0) != exprKey(lk.Index, 0) {
 					continue
+				}
+				if _, isParam := unspill(mu.Value).(*ssa.Parameter); isParam {
+					continue // put-if-absent of a value the caller hands in: a container operation, nothing is computed here
 				}
 				n++
 				key := fmt.Sprintf("%s|memo key carries what the entry depends on", fnName(f))
@@ -993,6 +1010,369 @@ func counterPairs(c *Check, rule string, fns map[*ssa.Function]bool) int {
 				"the delete runs only on the outcome where the entry's count is 0 or 1",
 				fmt.Sprintf("%s.%s counts nested acquisitions per key (it is incremented elsewhere); this delete is not tied to the count being exhausted, so releasing an inner level forgets the outer ones", k.own.Obj().Name(), k.fld))
 		})
+	}
+	return n
+}
+
+// goroutineLoopVars (GOROUTINE-LOOPVAR): a closure started on a goroutine (go
+// statement, errgroup.Group.Go) inside a loop reads a variable that is allocated
+// once outside the loop and assigned in every iteration — the loop variable
+// itself under the pre-1.22 semantics this module is built with, or a variable
+// declared before the loop. By the time the goroutine runs the variable may hold
+// a later iteration's value, and the read races with the loop's next write.
+func goroutineLoopVars(c *Check, rule string, fns map[*ssa.Function]bool) int {
+	p := c.P
+	var list []*ssa.Function
+	for f := range fns {
+		list = append(list, f)
+	}
+	sort.Slice(list, func(i, j int) bool { return fnName(list[i]) < fnName(list[j]) })
+	n := 0
+	for _, f := range list {
+		if p.isGeneratedFile(p.fnFile(f)) {
+			continue
+		}
+		eachInstr(f, func(_ *ssa.BasicBlock, i ssa.Instruction) {
+			var mc *ssa.MakeClosure
+			switch x := i.(type) {
+			case *ssa.Go:
+				mc, _ = x.Call.Value.(*ssa.MakeClosure)
+			case ssa.CallInstruction:
+				if _, ok := isGroupCall(i, "Go"); ok {
+					for _, a := range x.Common().Args {
+						if m, ok := a.(*ssa.MakeClosure); ok {
+							mc = m
+						}
+					}
+				}
+			}
+			if mc == nil {
+				return
+			}
+			fn, _ := mc.Fn.(*ssa.Function)
+			loop := enclosingLoop(mc.Block())
+			if fn == nil || len(loop) == 0 {
+				return
+			}
+			n++
+			bad := ""
+			for k, b := range mc.Bindings {
+				al, ok := b.(*ssa.Alloc)
+				if !ok || loop[al.Block()] || al.Referrers() == nil || k >= len(fn.FreeVars) {
+					continue
+				}
+				assignedInLoop := false
+				for _, r := range *al.Referrers() {
+					if st, ok := r.(*ssa.Store); ok && st.Addr == ssa.Value(al) && loop[st.Block()] {
+						assignedInLoop = true
+					}
+				}
+				if !assignedInLoop {
+					continue
+				}
+				// the goroutine reads it
+				fv := fn.FreeVars[k]
+				reads := false
+				if fv.Referrers() != nil {
+					for _, r := range *fv.Referrers() {
+						if u, ok := r.(*ssa.UnOp); ok && u.Op == token.MUL {
+							reads = true
+						}
+					}
+				}
+				if reads {
+					bad = fmt.Sprintf("variable %s is allocated once outside the loop and assigned in every iteration; the goroutine reads it after the loop has moved on", al.Comment)
+				}
+			}
+			key := fmt.Sprintf("%s|goroutine started in a loop reads only per-iteration values", fnName(fn))
+			c.Cond(bad == "", rule, key, p.pos(fn.Pos()),
+				"every variable the goroutine reads is declared inside the loop body, passed as an argument, or not assigned by the loop",
+				"the goroutine shares a variable with the loop that spawns it: "+bad+" (wrong value and a data race)")
+		})
+	}
+	return n
+}
+
+// saturatingCounters (COUNTER-PAIR, second clause): an integer field that one
+// function increments and another decrements is a nesting depth. If the
+// increment is skipped once the field has reached a constant cap (a saturating
+// increment) while the decrement is exact, the two stop matching beyond the cap:
+// the depth reaches zero too early and whatever guards the underflow fires.
+func saturatingCounters(c *Check, rule string, fns map[*ssa.Function]bool) int {
+	p := c.P
+	type fkey struct {
+		own *types.Named
+		fld string
+	}
+	type site struct {
+		st *ssa.Store
+		f  *ssa.Function
+	}
+	incs, decs := map[fkey][]site{}, map[fkey][]site{}
+	for _, f := range p.RepoFuncs() {
+		if p.isGeneratedFile(p.fnFile(f)) {
+			continue
+		}
+		eachInstr(f, func(_ *ssa.BasicBlock, i ssa.Instruction) {
+			st, ok := i.(*ssa.Store)
+			if !ok {
+				return
+			}
+			own, fld, _, ok := fieldOfAddr(st.Addr)
+			if !ok || own == nil || !isIntType(st.Val.Type()) {
+				return
+			}
+			bin, ok := st.Val.(*ssa.BinOp)
+			if !ok || (bin.Op != token.ADD && bin.Op != token.SUB) {
+				return
+			}
+			if one, ok := constInt(bin.Y); !ok || one != 1 {
+				return
+			}
+			if o2, f2, _, ok := loadedField(bin.X); !ok || o2 != own || f2 != fld {
+				return
+			}
+			k := fkey{own, fld}
+			if bin.Op == token.ADD {
+				incs[k] = append(incs[k], site{st, f})
+			} else {
+				decs[k] = append(decs[k], site{st, f})
+			}
+		})
+	}
+	n := 0
+	var keys []fkey
+	for k := range incs {
+		if len(decs[k]) > 0 {
+			keys = append(keys, k)
+		}
+	}
+	sort.Slice(keys, func(i, j int) bool {
+		return keys[i].own.Obj().Name()+"."+keys[i].fld < keys[j].own.Obj().Name()+"."+keys[j].fld
+	})
+	for _, k := range keys {
+		for _, s := range incs[k] {
+			if !fns[s.f] {
+				continue
+			}
+			n++
+			capped := ""
+			eachInstr(s.f, func(_ *ssa.BasicBlock, i ssa.Instruction) {
+				bin, ok := i.(*ssa.BinOp)
+				if !ok || capped != "" {
+					return
+				}
+				switch bin.Op {
+				case token.LSS, token.LEQ, token.GTR, token.GEQ, token.NEQ, token.EQL:
+				default:
+					return
+				}
+				var kv int64
+				var fv ssa.Value
+				if kk, ok := constInt(bin.Y); ok {
+					kv, fv = kk, bin.X
+				} else if kk, ok := constInt(bin.X); ok {
+					kv, fv = kk, bin.Y
+				} else {
+					return
+				}
+				if o2, f2, _, ok := loadedField(fv); !ok || o2 != k.own || f2 != k.fld || kv <= 0 {
+					return
+				}
+				for _, br := range branchesOn(bin) {
+					tIn := br.TrueSucc == s.st.Block() || br.TrueSucc.Dominates(s.st.Block())
+					fIn := br.FalseSucc == s.st.Block() || br.FalseSucc.Dominates(s.st.Block())
+					if tIn != fIn {
+						capped = fmt.Sprintf("the increment is skipped depending on a comparison of the field with %d", kv)
+					}
+				}
+			})
+			key := fmt.Sprintf("%s|every level counted in %s.%s", fnName(s.f), k.own.Obj().Name(), k.fld)
+			c.Cond(capped == "", rule, key, p.pos(s.st.Pos()),
+				"the increment is unconditional with respect to the counter's own value: increments and decrements match",
+				fmt.Sprintf("%s.%s is decremented exactly elsewhere (%s) but %s: beyond the cap the levels no longer match and the counter underflows", k.own.Obj().Name(), k.fld, fnName(decs[k][0].f), capped))
+		}
+	}
+	return n
+}
+
+// memoOnFailure (MEMO-ON-FAILURE): a function with an error result that keeps a
+// look-up-or-compute table (a map it also looks up, or a sync.Map it also Loads
+// from) must not file an entry on a path on which it returns a non-nil error —
+// in particular not from a deferred closure, which runs on every exit — or the
+// next call with the same key is answered with the failed computation's
+// (empty) value and no error.
+func memoOnFailure(c *Check, rule string, fns map[*ssa.Function]bool) int {
+	p := c.P
+	var list []*ssa.Function
+	for f := range fns {
+		if f.Parent() == nil {
+			list = append(list, f)
+		}
+	}
+	sort.Slice(list, func(i, j int) bool { return fnName(list[i]) < fnName(list[j]) })
+	n := 0
+	isErrReturn := func(f *ssa.Function, ei int) func(ssa.Instruction) bool {
+		return func(i ssa.Instruction) bool {
+			ret, ok := i.(*ssa.Return)
+			if !ok || ret.Block() == f.Recover || ei >= len(ret.Results) {
+				return false
+			}
+			vals, cell := returnValues(ret)
+			return cell[ei] || !isNilConst(vals[ei])
+		}
+	}
+	for _, f := range list {
+		if p.isGeneratedFile(p.fnFile(f)) || strings.HasSuffix(p.fnFile(f), "_test.go") {
+			continue
+		}
+		ei := errorResultIndex(f.Signature)
+		if ei < 0 {
+			continue
+		}
+		// tables looked up in f whose hit is handed back to the caller (a memo, not
+		// a visited set)
+		tables := map[string]bool{}
+		flowsToReturn := func(v ssa.Value) bool {
+			seen := map[ssa.Value]bool{}
+			var walk func(v ssa.Value, d int) bool
+			walk = func(v ssa.Value, d int) bool {
+				if v == nil || seen[v] || d > 6 || v.Referrers() == nil {
+					return false
+				}
+				seen[v] = true
+				for _, r := range *v.Referrers() {
+					switch y := r.(type) {
+					case *ssa.Return:
+						return true
+					case *ssa.Store:
+						if _, isAl := y.Addr.(*ssa.Alloc); isAl && y.Val == v {
+							return true // copied into the (named) result
+						}
+					case *ssa.Extract:
+						if y.Index == 0 && walk(y, d+1) {
+							return true
+						}
+					case *ssa.TypeAssert:
+						if walk(y, d+1) {
+							return true
+						}
+					case *ssa.Phi:
+						if walk(y, d+1) {
+							return true
+						}
+					case *ssa.MakeInterface:
+						if walk(y, d+1) {
+							return true
+						}
+					}
+				}
+				return false
+			}
+			return walk(v, 0)
+		}
+		eachInstr(f, func(_ *ssa.BasicBlock, i ssa.Instruction) {
+			switch x := i.(type) {
+			case *ssa.Lookup:
+				if _, isMap := x.X.Type().Underlying().(*types.Map); isMap && x.CommaOk && flowsToReturn(x) {
+					// a table that outlives the call: reached through a parameter, a captured
+					// variable or a package variable (a map made in this call is scratch space)
+					outlives := false
+					for _, r := range rootsOf(x.X) {
+						if r.Kind == rGlobal || r.Kind == rParam || r.Kind == rFree {
+							outlives = true
+						}
+					}
+					if outlives {
+						tables[exprKey(x.X, 0)] = true
+					}
+				}
+			case *ssa.Call:
+				if o := calleeObj(x); o != nil && objIs(o, "sync", "Map.Load") && len(x.Call.Args) > 0 && flowsToReturn(x) {
+					tables["sync:"+exprKey(x.Call.Args[0], 0)] = true
+				}
+			}
+		})
+		if len(tables) == 0 {
+			continue
+		}
+		isStore := func(i ssa.Instruction) (string, bool) {
+			switch x := i.(type) {
+			case *ssa.MapUpdate:
+				if tables[exprKey(x.Map, 0)] {
+					return exprKeyShort(x.Map), true
+				}
+			case ssa.CallInstruction:
+				if o := calleeObj(x); o != nil && (objIs(o, "sync", "Map.Store") || objIs(o, "sync", "Map.LoadOrStore")) && len(x.Common().Args) > 0 {
+					if tables["sync:"+exprKey(x.Common().Args[0], 0)] {
+						return exprKeyShort(x.Common().Args[0]), true
+					}
+				}
+			}
+			return "", false
+		}
+		for _, g := range withClosures(f) {
+			eachInstr(g, func(_ *ssa.BasicBlock, i ssa.Instruction) {
+				tbl, ok := isStore(i)
+				if !ok {
+					return
+				}
+				n++
+				key := fmt.Sprintf("%s|nothing is remembered in %s when the computation fails", fnName(f), tbl)
+				if g != f {
+					// inside a closure: deferred ⇒ runs on every exit, the error exits included
+					deferred := false
+					eachInstr(f, func(_ *ssa.BasicBlock, j ssa.Instruction) {
+						if d, ok := j.(*ssa.Defer); ok {
+							if mc, ok := d.Call.Value.(*ssa.MakeClosure); ok && mc.Fn == ssa.Value(g) {
+								deferred = true
+							}
+							if fn, ok := d.Call.Value.(*ssa.Function); ok && fn == g {
+								deferred = true
+							}
+						}
+					})
+					if !deferred {
+						c.Okf(rule, key, p.pos(i.Pos()), "the entry is filed by a closure that is not a deferred exit hook of the function")
+						return
+					}
+					// acceptable when the store is guarded by a nil test of the error result
+					guarded := false
+					eachInstr(g, func(_ *ssa.BasicBlock, j ssa.Instruction) {
+						bin, ok := j.(*ssa.BinOp)
+						if !ok || (bin.Op != token.EQL && bin.Op != token.NEQ) || !(isNilConst(bin.X) || isNilConst(bin.Y)) {
+							return
+						}
+						other := bin.X
+						if isNilConst(other) {
+							other = bin.Y
+						}
+						if !isErrorType(other.Type()) {
+							return
+						}
+						for _, br := range branchesOn(bin) {
+							nilSucc := br.TrueSucc
+							if bin.Op == token.NEQ {
+								nilSucc = br.FalseSucc
+							}
+							if nilSucc == i.Block() || nilSucc.Dominates(i.Block()) {
+								guarded = true
+							}
+						}
+					})
+					c.Cond(guarded, rule, key, p.pos(i.Pos()),
+						"the deferred hook files the entry only when the error result is nil",
+						"the entry is filed by a deferred closure, which also runs when the function returns an error: the failed computation's result is remembered and the next call with this key succeeds with it")
+					return
+				}
+				ret, bad := reachAvoiding(i, isErrReturn(f, ei), nil)
+				detail := ""
+				if bad {
+					detail = fmt.Sprintf("after the entry is filed a path still leads to the error return at %s: a computation that fails later leaves its entry behind", p.pos(ret.Pos()))
+				}
+				c.Cond(!bad, rule, key, p.pos(i.Pos()), "no path leads from filing the entry to a non-nil error return", detail)
+			})
+		}
 	}
 	return n
 }
